@@ -1,5 +1,6 @@
 import AdfObdd.FeatureOps
 import AdfObdd.CountsMore
+import AdfObdd.MemoCheckProofs
 /-! # C12 — answers are independent of the cargo feature configuration
 
 Model: `FeatureVariants.lean` carries BOTH bodies of every `cfg(feature = …)` split of
@@ -273,5 +274,23 @@ example : FInv Cfg.default true (runOpsC Cfg.default [.var 0] (newC Cfg.default)
 
 /-- `fix_import_establishes` applies to the initial tables -/
 example : WF ⟨Store.init.nodes, Store.init.uniq, ∅, ∅⟩ := WF_init
+
+end C12
+
+/-! ## the real tables under every feature set
+
+The count cache and the dependency lists exist only under some feature sets; the audit of the
+REAL tables dumped from the implementation (`MemoCheck.memoCheckF`, run under every feature set,
+with `exc` = the exception configuration and `deps = none` when `variablelist` is off) is a
+verified checker: a positive verdict means the dumped tables are exactly what the invariant
+`FInv` of this file says about the model's tables (`CntOK`: paths and depth always, model counts
+unless the exception; `DepsOK`: the recursive dependency sets). -/
+namespace C12
+
+/-- re-export of `C11.memo_audit_sound` -/
+theorem memo_audit_sound (nv : Nat) (exc : Bool) (s : Store) (r : MemoCheck.Rows)
+    (hwf : wfCheck s.nodes = true) (hc : MemoCheck.memoCheckF nv exc s.nodes r = true) :
+    MemoCheck.MemoSound nv exc s r :=
+  MemoCheck.memoCheckF_sound nv exc s r (wfCheck_sound s.nodes hwf) hc
 
 end C12
